@@ -79,13 +79,17 @@ LEAVES2 = (
     A.gate("m10"),
     A.gate("m11"),
     A.gate("m12", "b"),
+    # second calls of macros that pass their parameter on to another macro, with other qubits (anything remembered per
+    # call *as written* inside the body shows when the outer macro is called twice)
+    A.gate("m3", A.item("q", 2)),
+    A.gate("m12", "q"),
 )
 
 
 def extra_specs(tier):
     if tier == "quick":
-        return [dict(max_nodes=2, leaves=LEAVES2 + LEAVES[:1]), dict(max_nodes=3, min_nodes=3, leaves=LEAVES2[::2], loops=("n",), subs=(None,))]
-    return [dict(max_nodes=3, leaves=LEAVES2 + LEAVES[:2]), dict(max_nodes=4, min_nodes=4, leaves=LEAVES2[::2], loops=("n",), subs=(None,))]
+        return [dict(max_nodes=2, leaves=LEAVES2 + (LEAVES[0], LEAVES[7])), dict(max_nodes=3, min_nodes=3, leaves=LEAVES2[:5:2], loops=("n",), subs=(None,))]
+    return [dict(max_nodes=3, leaves=LEAVES2 + (LEAVES[0], LEAVES[7])), dict(max_nodes=4, min_nodes=4, leaves=LEAVES2[:5:2], loops=("n",), subs=(None,))]
 
 
 # ---------------------------------------------------------------- legal nesting
